@@ -42,10 +42,19 @@ func Scrub(b []byte) []byte {
 	scrubbedBytes := b
 	for _, pattern := range scrubberPatterns {
 		// this is a workaround since go does not yet support look ahead or look
-		// behind for regular expressions.
-		scrubbedBytes = pattern.ReplaceAllFunc(scrubbedBytes, func(b []byte) []byte {
-			return addressRegexp.ReplaceAll(b, []byte("[scrubbed]"))
-		})
+		// behind for regular expressions. A match consumes the delimiter on
+		// each side of the address, so of two addresses separated by a single
+		// delimiter only the first is found in one pass: repeat until nothing
+		// changes.
+		for {
+			next := pattern.ReplaceAllFunc(scrubbedBytes, func(b []byte) []byte {
+				return addressRegexp.ReplaceAll(b, []byte("[scrubbed]"))
+			})
+			if bytes.Equal(next, scrubbedBytes) {
+				break
+			}
+			scrubbedBytes = next
+		}
 	}
 	return scrubbedBytes
 }
